@@ -99,6 +99,14 @@ Fixpoint e_canonical_v (sk : bool) (c : chain) (e : ename) : string :=
   match e with ERoot n => canonical_v sk c n | EAttr p a => e_canonical_v sk c p +++ "." +++ a end.
 Definition attr_canonical_v (sk : bool) (c : chain) (x : anode) : string := e_canonical_v sk c (last_e (build_attr x) (ERoot "")).
 
+(* Decorator.callable_path: the decorator expression stripped of its calls (the property strips one ExprCall,
+   ExprCall.canonical_path the others), then ExprAttribute / ExprName.canonical_path *)
+Inductive deco := DChain (x : anode) | DCall (d : deco).
+Fixpoint callable_path_v (sk : bool) (c : chain) (d : deco) : string :=
+  match d with DChain x => attr_canonical_v sk c x | DCall d' => callable_path_v sk c d' end.
+Fixpoint deco_head (d : deco) : anode := match d with DChain x => x | DCall d' => deco_head d' end.
+Fixpoint deco_calls (n : nat) (d : deco) : deco := match n with O => d | S k => DCall (deco_calls k d) end.
+
 (* ------------------------------------------------------------------------------------------------ expressions *)
 (* What matters for scoping: identifiers, nodes whose children are evaluated in the same scope (folded to XSeq),
    lambdas (parameter names, defaults, body), comprehensions (element(s), for-clauses), string annotations. *)
@@ -412,6 +420,12 @@ Definition run_C04e (s : sexp) : sexp :=
           SList [SStr (attr_canonical_v (v_skip v') c' x);
                  SList (map (fun e => SStr (e_canonical_v (v_skip v') c' e)) (build_attr x))]
       | _, _, _ => bad_input
+      end
+  | SList [SStr "deco"; v; c; SStr root; segs; calls] =>
+      match dec_variant v, as_list_of dec_frame c, as_list_of as_str segs, as_nat calls with
+      | Some v', Some c', Some segs', Some k =>
+          SStr (callable_path_v (v_skip v') c' (deco_calls k (DChain (dec_anode segs' (AName root)))))
+      | _, _, _, _ => bad_input
       end
   | _ => run_C04 s
   end.
